@@ -138,10 +138,74 @@ def eliminate_returns(stmts):
                 out.append(ast.If(test=s.test, body=body + rest2, orelse=orelse))
                 return out, rr
             return None     # a branch returns on some of its paths only: needs a flag, not handled
+        if isinstance(s, (ast.For, ast.While)) and not s.orelse and _has_return(s):
+            # returns inside a loop: value to RET, flag DONE, break (propagated through enclosing loops); what follows the loop
+            # runs only when the loop was not left that way
+            r = eliminate_returns(stmts[i + 1:])
+            if r is None:
+                return None
+            rest2, rr = r
+            nested = any(isinstance(x, (ast.For, ast.While)) and _has_return(x) for b0 in s.body for x in ast.walk(b0))
+            own_breaks = any(isinstance(x, ast.Break) for b0 in s.body for x in ast.walk(b0))
+            if not nested and not own_breaks:
+                # loop/else: the else clause runs exactly when the loop was not left through one of the (former) returns
+                body = _loop_returns(s.body, flag=False)
+                if body is None:
+                    return None
+                new = copy.copy(s)
+                new.body = body
+                new.orelse = rest2
+                out.append(new)
+                return out, rr
+            body = _loop_returns(s.body)
+            if body is None:
+                return None
+            new = copy.copy(s)
+            new.body = body
+            out.append(new)
+            if rest2:
+                out.append(ast.If(test=ast.UnaryOp(op=ast.Not(), operand=ast.Name(id=DONE, ctx=ast.Load())), body=rest2, orelse=[]))
+            return out, rr
         if _has_return(s):
             return None
         out.append(s)
     return out, False
+
+
+DONE = "__returned__"
+
+
+def _loop_returns(stmts, flag=True):
+    """Inside a loop body: `return X` -> RET = X; DONE = True; break.  An inner loop that may set DONE is followed by `if DONE: break`."""
+    out = []
+    for s in stmts:
+        if isinstance(s, ast.Return):
+            out.append(ast.Assign(targets=[ast.Name(id=RET, ctx=ast.Store())], value=s.value if s.value is not None else ast.Constant(value=None)))
+            if flag:
+                out.append(ast.Assign(targets=[ast.Name(id=DONE, ctx=ast.Store())], value=ast.Constant(value=True)))
+            out.append(ast.Break())
+            return out
+        if isinstance(s, ast.If) and _has_return(s):
+            a, b = _loop_returns(s.body, flag), _loop_returns(s.orelse, flag)
+            if a is None or b is None:
+                return None
+            out.append(ast.If(test=s.test, body=a, orelse=b))
+            continue
+        if isinstance(s, (ast.For, ast.While)) and _has_return(s):
+            if s.orelse:
+                return None
+            b = _loop_returns(s.body)
+            if b is None:
+                return None
+            new = copy.copy(s)
+            new.body = b
+            out.append(new)
+            out.append(ast.If(test=ast.Name(id=DONE, ctx=ast.Load()), body=[ast.Break()], orelse=[]))
+            continue
+        if _has_return(s):
+            return None
+        out.append(s)
+    return out
 
 
 def helper_shape(fn):
@@ -166,6 +230,8 @@ def helper_shape(fn):
     new, always = r
     if not always:
         new = [ast.Assign(targets=[ast.Name(id=RET, ctx=ast.Store())], value=ast.Constant(value=None))] + new
+    if any(isinstance(x, ast.Name) and x.id == DONE for t in new for x in ast.walk(t)):
+        new = [ast.Assign(targets=[ast.Name(id=DONE, ctx=ast.Store())], value=ast.Constant(value=False))] + new
     for x in new:
         ast.fix_missing_locations(x)
     return new, ast.Name(id=RET, ctx=ast.Load())
@@ -985,6 +1051,170 @@ def counter_whiles(fn):
     return k
 
 
+def scalarise_tuple_temps(fn):
+    """An inliner temporary T whose every definition is `T = (e1, .., ek)` and whose only use is `a1, .., ak = T`:
+    each definition becomes k assignments T_i = e_i and the use becomes a_i = T_i."""
+    k = 0
+    names = {n.id for n in ast.walk(fn) if isinstance(n, ast.Name) and n.id.startswith("__")}
+    for T in sorted(names):
+        stores = []
+        loads = []
+        for b in _blocks(fn):
+            for s in b:
+                if isinstance(s, ast.Assign) and len(s.targets) == 1 and isinstance(s.targets[0], ast.Name) and s.targets[0].id == T:
+                    stores.append((b, s))
+                elif isinstance(s, ast.Assign) and isinstance(s.value, ast.Name) and s.value.id == T:
+                    loads.append((b, s))
+        n_store = sum(1 for n in ast.walk(fn) if isinstance(n, ast.Name) and n.id == T and isinstance(n.ctx, ast.Store))
+        n_load = sum(1 for n in ast.walk(fn) if isinstance(n, ast.Name) and n.id == T and isinstance(n.ctx, ast.Load))
+        if n_load != 1 or len(loads) != 1 or n_store != len(stores) or not stores:
+            continue
+        lb, ls = loads[0]
+        if not (len(ls.targets) == 1 and isinstance(ls.targets[0], ast.Tuple)):
+            continue
+        ar = len(ls.targets[0].elts)
+        if not all(isinstance(st.value, ast.Tuple) and len(st.value.elts) == ar for _, st in stores):
+            continue
+        for b, st in stores:
+            new = [ast.Assign(targets=[ast.Name(id="%s_%d" % (T, j), ctx=ast.Store())], value=e) for j, e in enumerate(st.value.elts)]
+            # simultaneous semantics: no element may read a component assigned earlier in this group (they are fresh names) - fine
+            for x in new:
+                ast.copy_location(x, st)
+                ast.fix_missing_locations(x)
+            b[b.index(st):b.index(st) + 1] = new
+        new = [ast.Assign(targets=[t], value=ast.Name(id="%s_%d" % (T, j), ctx=ast.Load())) for j, t in enumerate(ls.targets[0].elts)]
+        for x in new:
+            ast.copy_location(x, ls)
+            ast.fix_missing_locations(x)
+        lb[lb.index(ls):lb.index(ls) + 1] = new
+        k += 1
+    return k
+
+
+def rename_multi_def_temps(fn):
+    """`x = __t` where this copy is the only read of the inliner temporary __t and x does not occur anywhere except after the
+    copy: __t is x - rename every definition and drop the copy."""
+    k = 0
+    again = True
+    while again:
+        again = False
+        for b in _blocks(fn):
+            for i, s in enumerate(b):
+                if isinstance(s, ast.Assign) and len(s.targets) == 1 and isinstance(s.targets[0], ast.Name) and isinstance(s.value, ast.Name) and \
+                        s.value.id.startswith("__") and s.targets[0].id != s.value.id:
+                    x, t = s.targets[0].id, s.value.id
+                    loads = [n for n in ast.walk(fn) if isinstance(n, ast.Name) and n.id == t and isinstance(n.ctx, ast.Load)]
+                    if len(loads) != 1:
+                        continue
+                    # region: the body of the innermost loop enclosing the copy (one iteration), else the whole function;
+                    # every definition of t lies in the region, and inside the region x occurs only strictly after the copy
+                    par = {}
+                    for a in ast.walk(fn):
+                        for c2 in ast.iter_child_nodes(a):
+                            par[id(c2)] = a
+                    region = fn
+                    cur = s
+                    while id(cur) in par:
+                        cur = par[id(cur)]
+                        if isinstance(cur, (ast.For, ast.While)):
+                            region = cur
+                            break
+                    region_ids = {id(n) for n in ast.walk(region)}
+                    if any(isinstance(n, ast.Name) and n.id == t and id(n) not in region_ids for n in ast.walk(fn)):
+                        continue
+                    after = []
+                    cur = s
+                    while cur is not region and id(cur) in par:
+                        p2 = par[id(cur)]
+                        for field in ("body", "orelse", "finalbody"):
+                            blk = getattr(p2, field, None)
+                            if isinstance(blk, list) and cur in blk:
+                                after.extend(blk[blk.index(cur) + 1:])
+                        cur = p2
+                    ids_after = {id(n) for u in after for n in ast.walk(u)} | {id(s.targets[0])}
+                    if any(isinstance(n, ast.Name) and n.id == x and id(n) not in ids_after for n in ast.walk(region)):
+                        continue
+                    if isinstance(region, ast.While) and any(isinstance(n, ast.Name) and n.id in (x, t) for n in ast.walk(region.test)):
+                        continue
+                    for n in ast.walk(fn):
+                        if isinstance(n, ast.Name) and n.id == t:
+                            n.id = x
+                    del b[i]
+                    k += 1
+                    again = True
+                    break
+            if again:
+                break
+    return k
+
+
+def eliminate_result_copies(fn):
+    """x = __t where EVERY definition of the local x is a copy of the same inliner temporary __t, and __t is not stored
+    between any of those copies and a use of x it reaches (decided on the function's control-flow graph): x is __t - its uses
+    are renamed and the copies dropped."""
+    from . import cfg as C
+    from . import effects as E
+    import networkx as nx
+    k = 0
+    params = {a.arg for a in fn.args.args}
+    cands = {}
+    for n in ast.walk(fn):
+        if isinstance(n, ast.Name) and isinstance(n.ctx, (ast.Store, ast.Del)) and not n.id.startswith("__") and n.id not in params:
+            cands.setdefault(n.id, []).append(n)
+    if not cands:
+        return 0
+    g = None
+    for x, stores in sorted(cands.items()):
+        copies = []
+        for b in _blocks(fn):
+            for st in b:
+                if isinstance(st, ast.Assign) and len(st.targets) == 1 and isinstance(st.targets[0], ast.Name) and st.targets[0].id == x and \
+                        isinstance(st.value, ast.Name) and st.value.id.startswith("__"):
+                    copies.append((b, st))
+        if not copies or len(copies) != len(stores) or len({st.value.id for _, st in copies}) != 1:
+            continue
+        t = copies[0][1].value.id
+        if g is None:
+            try:
+                g = C.CFG(fn)
+            except Exception:
+                return k
+        try:
+            cnodes = [g.node_of(st) for _, st in copies]
+        except Exception:
+            continue
+        H = g.G.subgraph([n for n in g.G.nodes if n not in cnodes])
+        ok = True
+        for c in cnodes:
+            region = set()
+            for s2 in g.G.successors(c):
+                if s2 in H:
+                    region |= nx.descendants(H, s2) | {s2}
+            uses = [n for n in region if n.ast is not None and any(isinstance(y, ast.Name) and y.id == x and isinstance(y.ctx, ast.Load)
+                                                                   for r in E.node_exprs(n) for y in ast.walk(r))]
+            for n in region:
+                if t in E.stored_locs(n):
+                    # a store to t after the copy: unsafe if a use of x is still reachable from there
+                    after = nx.descendants(H, n) & set(uses) if n in H else set()
+                    if after or n in uses:
+                        ok = False
+                        break
+            if not ok:
+                break
+        if not ok:
+            continue
+        for n in ast.walk(fn):
+            if isinstance(n, ast.Name) and n.id == x and isinstance(n.ctx, ast.Load):
+                n.id = t
+        for b, st in copies:
+            b.remove(st)
+            if not b:
+                b.append(ast.copy_location(ast.Pass(), st))
+        k += 1
+        g = None
+    return k
+
+
 def rename_result_temps(fn):
     """`__tmp = E` ... `x = __tmp` (single definition, single use, x untouched in between, same block) -> `x = E` at the definition."""
     k = 0
@@ -1309,8 +1539,11 @@ def normalize_tree(file, tree, vocab):
             t0 = split_tuple_assigns(f)
             t0 += expand_return_ifexp(f) + unroll_literal_loops(f)
             t0 += fold_none_tests(f, cname)
+            t0 += scalarise_tuple_temps(f)
             t0 += coalesce_copies(f)
             t0 += rename_result_temps(f)
+            t0 += rename_multi_def_temps(f)
+            t0 += eliminate_result_copies(f)
             if t0:
                 log.append("%s.%s: %d parallel assignment(s) split / result temporaries renamed" % (cname, f.name, t0))
             w4 = while_true_breaks(f) + counter_whiles(f)
